@@ -255,155 +255,32 @@ def _subst_attr(expr, attr, value):
 
 
 # ---------------------------------------------------------------------------------------------
-# splices: affine segment analysis with N symbolic, m concrete
+# splices, axes and tensor maps: decided on the terms of the symbolic interpreter (fdinterp),
+# so temporaries, aliases, renamings, loops vs comprehensions do not matter
 # ---------------------------------------------------------------------------------------------
+from ..fdinterp import FDInterp, NotUnderstood, canon_lists, segments  # noqa: E402
+
+AXIS = {"x": 0, "y": 1, "z": 2}
+Nsym = Aff.sym("N")
+
+
+def interp(rep, qual, m=None, args=None):
+    fn = rep.sources.function(FD, qual)
+    return fn, FDInterp(m, what=qual).run(fn, args)
+
+
 def fd_map_shape(rep):
-    S = rep.sources
-    fn = S.function(FD, "fd_map")
-    args = [a.arg for a in fn.args.args]
-    ret = [s for s in fn.body if isinstance(s, ast.Return)]
-    ok = False
-    if len(args) == 5 and ret:
-        v = ret[0].value
-        lc = None
-        if isinstance(v, ast.Call) and v.args and isinstance(v.args[0], ast.ListComp):
-            lc = v.args[0]
-        elif isinstance(v, ast.ListComp):
-            lc = v
-        if lc is not None and len(lc.generators) == 1:
-            g = lc.generators[0]
-            it = g.iter
-            rng_ok = (isinstance(it, ast.Call) and unparse(it.func) in
-                      ("np.arange", "range", "numpy.arange") and len(it.args) == 2
-                      and unparse(it.args[0]) == args[3] and unparse(it.args[1]) == args[4])
-            e = lc.elt
-            call_ok = (isinstance(e, ast.Call) and unparse(e.func) == args[0]
-                       and [unparse(a) for a in e.args] == [args[1], unparse(g.target),
-                                                            args[2]])
-            ok = rng_ok and call_ok and not g.ifs
+    fn, v = interp(rep, "fd_map")
+    p = [a.arg for a in fn.args.args]
+    ok = len(p) == 5
+    if ok:
+        P = [("param", x) for x in p]
+        want = ("list", "i0", ("range", P[3], P[4]), ("call", P[0], (P[1], ("sym", "i0"), P[2])))
+        got = canon_lists(v[1] if v[0] == "arr" else v)
+        ok = got == want
     rep.check(ok, "fd-map-shape", f"{FD}::fd_map",
               "fd_map must evaluate func(farray, i, idx) for every i in [imin, imax), in "
               "order", node=fn)
-
-
-def call_args(call):
-    return [unparse(a) for a in call.args]
-
-
-def find_calls(fn, name):
-    out = []
-    for n in ast.walk(fn):
-        if isinstance(n, ast.Call) and unparse(n.func) == name:
-            out.append(n)
-    return out
-
-
-def local_assigns(fn):
-    env = {}
-    for st in fn.body:
-        if isinstance(st, ast.Assign) and len(st.targets) == 1 \
-                and isinstance(st.targets[0], ast.Name):
-            env[st.targets[0].id] = st.value
-    return env
-
-
-def seg_of_slice(node, fname, env):
-    """Abstract a slice expression of f into (start, length, step) affine in N (m concrete).
-    Returns None if not understood."""
-    if isinstance(node, ast.Name) and node.id == fname:
-        return (Aff(0), Aff.sym("N"), 1)
-    if isinstance(node, ast.Subscript):
-        inner = seg_of_slice(node.value, fname, env)
-        sl = node.slice
-        if inner is None or not isinstance(sl, ast.Slice):
-            return None
-        start0, length0, step0 = inner
-        lo = aff_eval(sl.lower, env) if sl.lower is not None else None
-        hi = aff_eval(sl.upper, env) if sl.upper is not None else None
-        st = const_value(sl.step) if sl.step is not None else Fraction(1)
-        if (sl.lower is not None and lo is None) or (sl.upper is not None and hi is None) \
-                or st is None:
-            return None
-        if st == -1 and sl.lower is None and sl.upper is None:
-            # reversal
-            return (start0 + (length0 - 1).scale(step0), length0, -step0)
-        if st != 1:
-            return None
-
-        def wrap(v, default):
-            if v is None:
-                return default
-            # negative constants wrap around (python slicing); affine with +N stay
-            if v.is_const() and v.c < 0:
-                return length0 + v
-            return v
-        lo = wrap(lo, Aff(0))
-        hi = wrap(hi, length0)
-        return (start0 + lo.scale(step0), hi - lo, step0)
-    return None
-
-
-def _pad_width_axis0(rep, node, env):
-    """(before, after) affine pad widths of axis 0 from the pad_width argument."""
-    if isinstance(node, ast.Call) and isinstance(node.func, ast.Attribute) \
-            and isinstance(node.func.value, ast.Name) and node.func.value.id == "self":
-        helper = rep.sources.functions(FD).get("FiniteDifference." + node.func.attr)
-        if helper is not None:
-            rets = [s for s in helper.body if isinstance(s, ast.Return)]
-            if len(rets) == 1:
-                return _pad_width_axis0(rep, rets[0].value, env)
-        return None
-    if isinstance(node, ast.BinOp) and isinstance(node.op, ast.Add):
-        return _pad_width_axis0(rep, node.left, env)
-    if isinstance(node, (ast.List, ast.Tuple)) and node.elts:
-        first = node.elts[0]
-        if isinstance(first, (ast.Tuple, ast.List)) and len(first.elts) == 2:
-            a, b = aff_eval(first.elts[0], env), aff_eval(first.elts[1], env)
-            rest_zero = all(
-                isinstance(e, (ast.Tuple, ast.List)) and all(const_value(x) == 0
-                                                             for x in e.elts)
-                for e in node.elts[1:])
-            if a is not None and b is not None and rest_zero:
-                return a, b
-        elif len(node.elts) == 2 and not isinstance(first, (ast.Tuple, ast.List)):
-            return None  # (before, after) for all axes: pads the other axes too
-    return None
-
-
-def pad_segments(rep, call, fname, env, m):
-    """Model np.pad(f, widths, mode=...) along axis 0 as (start, length, step) segments."""
-    N = Aff.sym("N")
-    if not call.args or unparse(call.args[0]) != fname or len(call.args) < 2:
-        return [None]
-    w = _pad_width_axis0(rep, call.args[1], env)
-    mode = None
-    for k in call.keywords:
-        if k.arg == "mode" and isinstance(k.value, ast.Constant):
-            mode = k.value.value
-    if len(call.args) > 2 and isinstance(call.args[2], ast.Constant):
-        mode = call.args[2].value
-    if w is None:
-        return [None]
-    a, b = w
-    mid = (Aff(0), N, 1)
-    if mode == "wrap":
-        return [(N - a, a, 1), mid, (Aff(0), b, 1)]
-    if mode == "reflect":      # mirror about the edge sample, edge not repeated
-        return [(a, a, -1), mid, (N - 2, b, -1)]
-    if mode == "symmetric":    # mirror about the cell face, edge sample repeated
-        return [(a - 1, a, -1), mid, (N - 1, b, -1)]
-    # constant / edge / linear_ramp ...: ghost points are not samples of f at mirrored or
-    # wrapped positions at all
-    return [(Aff(-1), a, 0), mid, (Aff(-1), b, 0)]
-
-
-def affine_env(fn, m):
-    env = {"self.mask_len": Aff(m), "N": Aff.sym("N")}
-    for name, val in local_assigns(fn).items():
-        a = aff_eval(val, env)
-        if a is not None:
-            env[name] = a
-    return env
 
 
 def min_N_for(cond_list):
@@ -429,45 +306,34 @@ def min_N_for(cond_list):
 def check_splices(rep, stencils):
     S = rep.sources
     fd_map_shape(rep)
-    Nsym = Aff.sym("N")
     minsizes = {}
     # ---- one-sided
     fn = S.function(FD, "FiniteDifference.d3_onesided")
-    params = [a.arg for a in fn.args.args]  # self, f, idx, N
-    calls = find_calls(fn, "fd_map")
-    rep.require(len(calls) == 3, "d3_onesided: expected three fd_map calls")
-    ret = [s for s in fn.body if isinstance(s, ast.Return)][0].value
-    env_names = {k: v for k, v in local_assigns(fn).items()}
-    order_names = []
-    if isinstance(ret, ast.Call) and unparse(ret.func) in ("np.concatenate",):
-        tup = ret.args[0]
-        order_names = [unparse(e) for e in tup.elts] if isinstance(tup, (ast.Tuple, ast.List)) \
-            else []
-        axis_ok = any(k.arg == "axis" and const_value(k.value) == 0 for k in ret.keywords)
-    else:
-        axis_ok = False
-    segs = []
-    for nm in order_names:
-        c = env_names.get(nm)
-        if not (isinstance(c, ast.Call) and unparse(c.func) == "fd_map"):
-            raise AnalysisError("d3_onesided: concatenation operand is not an fd_map result")
-        segs.append(c)
-    rep.check(axis_ok and len(segs) == 3, "onesided-concat", f"{FD}::d3_onesided::concat",
-              "the three pieces must be concatenated along axis 0", node=ret)
+    params = [a.arg for a in fn.args.args][1:]          # f, idx, N
+    rep.require(len(params) == 3, "d3_onesided: expected (f, idx, N)")
+    F, IDX = ("param", params[0]), ("param", params[1])
     for p in ORDERS:
         m = p // 2
-        env = affine_env(fn, m)
-        env[params[3]] = Nsym
         key = f"{FD}::d3_onesided::order{p}"
+        v = FDInterp(m, "d3_onesided").run(fn, [F, IDX, Nsym])
+        pieces_v = v[1] if v[0] == "cat" else None
+        ok = pieces_v is not None and v[2] == Aff(0) and len(pieces_v) == 3 \
+            and all(x[0] == "fd_map" and len(x[1]) == 5 for x in pieces_v)
+        if p == ORDERS[0]:
+            rep.check(ok, "onesided-concat", f"{FD}::d3_onesided::concat",
+                      "the result must be the concatenation along axis 0 of three fd_map "
+                      "pieces", node=fn)
+        if not ok:
+            continue
         pieces = []
-        for c in segs:
-            a = call_args(c)
-            role = a[0].replace("self.", "")
-            lo, hi = aff_eval(c.args[3], env), aff_eval(c.args[4], env)
-            rep.require(lo is not None and hi is not None, "d3_onesided: non-affine range")
-            rep.check(a[1] == params[1] and a[2] == params[2], "onesided-args",
-                      f"{key}::{role}::args", "fd_map must receive (f, idx) unchanged", node=c)
-            pieces.append((role, lo, hi))
+        for x in pieces_v:
+            role, arr, idx, lo, hi = x[1]
+            rname = role[1] if role[0] == "role" else str(role)
+            rep.require(isinstance(lo, Aff) and isinstance(hi, Aff),
+                        "d3_onesided: non-affine range")
+            rep.check(arr == F and idx == IDX, "onesided-args", f"{key}::{rname}::args",
+                      "fd_map must receive (f, idx) unchanged", node=fn)
+            pieces.append((rname, lo, hi))
         roles = [r for r, _, _ in pieces]
         rep.check(roles == ["forward", "centered", "backward"], "onesided-roles", key,
                   f"pieces are {roles}; the left edge needs the forward, the interior the "
@@ -492,7 +358,6 @@ def check_splices(rep, stencils):
         rep.check(nmin is not None, "onesided-bounds", key,
                   "some stencil subscript leaves [0, N-1] for every N (python would wrap "
                   "negative indices silently)", node=fn, detail={"min_supported_N": nmin})
-        # the interior piece must use exactly the half-width
         if nmin is not None:
             minsizes[p] = nmin
             rep.check(nmin <= 3 * p // 2, "onesided-minsize", key,
@@ -503,105 +368,72 @@ def check_splices(rep, stencils):
     # ---- periodic and symmetric
     for mode in ("periodic", "symmetric"):
         fn = S.function(FD, f"FiniteDifference.d3_{mode}")
-        params = [a.arg for a in fn.args.args]
-        la = local_assigns(fn)
-        calls = find_calls(fn, "fd_map")
-        rep.require(len(calls) == 1, f"d3_{mode}: expected one fd_map call")
-        c = calls[0]
-        a = call_args(c)
-        longname = a[1]
-        cat = la.get(longname)
-        rep.require(isinstance(cat, ast.Call)
-                    and unparse(cat.func) in ("np.concatenate", "np.pad"),
-                    f"d3_{mode}: extended array is neither a concatenation nor np.pad")
-        is_pad = unparse(cat.func) == "np.pad"
-        if is_pad:
-            axis_ok = True
-            elts = []
-        else:
-            axis_ok = any(k.arg == "axis" and const_value(k.value) == 0
-                          for k in cat.keywords)
-            elts = cat.args[0].elts
+        params = [a.arg for a in fn.args.args][1:]
+        rep.require(len(params) == 3, f"d3_{mode}: expected (f, idx, N)")
+        F, IDX = ("param", params[0]), ("param", params[1])
         for p in ORDERS:
             m = p // 2
-            env = affine_env(fn, m)
-            env[params[3]] = Nsym
-            for name, val in la.items():
-                v = aff_eval(val, env)
-                if v is not None:
-                    env[name] = v
             key = f"{FD}::d3_{mode}::order{p}"
-            if is_pad:
-                segs = pad_segments(rep, cat, params[1], env, m)
-            else:
-                segs = [seg_of_slice(e, params[1], env) for e in elts]
-            if any(s is None for s in segs):
-                raise AnalysisError(f"d3_{mode}: slice not understood: "
-                                    + ", ".join(unparse(e) for e in elts))
+            v = FDInterp(m, f"d3_{mode}").run(fn, [F, IDX, Nsym])
+            rep.require(v[0] == "fd_map" and len(v[1]) == 5,
+                        f"d3_{mode}: the result is not one fd_map over an extended array")
+            role, arr, idx, lo, hi = v[1]
+            segs = segments(arr, Nsym, params[0])
+            if segs is None:
+                raise AnalysisError(f"d3_{mode}: extended array not understood: {arr!r}"[:200])
             if mode == "periodic":
                 want = [(Nsym - m, Aff(m), 1), (Aff(0), Nsym, 1), (Aff(0), Aff(m), 1)]
                 descr = "flong[j] = f[(j-m) mod N]"
             else:
                 want = [(Aff(m), Aff(m), -1), (Aff(0), Nsym, 1), (Nsym - 2, Aff(m), -1)]
                 descr = "flong[j] = f[|j-m|] left, f[2(N-1)-(j-m)] right"
-            got = [(s[0], s[1], int(s[2])) for s in segs]
-            rep.check(axis_ok and got == want, f"{mode}-extension", key,
+            got = [(s_[0], s_[1], int(s_[2])) for s_ in segs]
+            rep.check(got == want, f"{mode}-extension", key,
                       f"extended array segments (start,len,step) {got} != {want} "
-                      f"required for {descr}", node=cat,
+                      f"required for {descr}", node=fn,
                       detail={"segments": [str(g) for g in got]})
-            lo, hi = aff_eval(c.args[3], env), aff_eval(c.args[4], env)
-            rep.check(a[0] == "self.centered" and a[2] == params[2] and lo == Aff(m)
+            rep.check(role == ("role", "centered") and idx == IDX and lo == Aff(m)
                       and hi == Nsym + m, f"{mode}-map", key,
                       f"the centred stencil must be mapped over [m, N+m) of the extended "
-                      f"array, got {a[0]} over [{lo},{hi})", node=c)
+                      f"array, got {role} over [{lo},{hi})", node=fn)
             w = stencils[(p, "centered")].w
             rep.check(max(abs(k) for k in w) <= m, f"{mode}-reach", key,
-                      "centred stencil reaches beyond the m ghost points", node=c)
+                      "centred stencil reaches beyond the m ghost points", node=fn)
     # ---- d3 dispatch on boundary
     fn = S.function(FD, "FiniteDifference.d3")
-    params = [a.arg for a in fn.args.args]
+    params = [a.arg for a in fn.args.args][1:]
+    v = FDInterp(None, "d3").run(fn)
     table = {}
-    node = fn.body[-1] if isinstance(fn.body[-1], ast.If) else None
-    for st in fn.body:
-        if isinstance(st, ast.If):
-            node = st
-    rep.require(node is not None, "d3: boundary dispatch not found")
-    while isinstance(node, ast.If):
-        t = node.test
-        lab = None
-        if isinstance(t, ast.Compare) and is_self_attr(t.left, "boundary") \
-                and isinstance(t.ops[0], ast.Eq) and isinstance(t.comparators[0], ast.Constant):
-            lab = t.comparators[0].value
-        r = node.body[0]
-        if lab is not None and isinstance(r, ast.Return) and isinstance(r.value, ast.Call):
-            table[lab] = (unparse(r.value.func), call_args(r.value))
-        if len(node.orelse) == 1 and isinstance(node.orelse[0], ast.If):
-            node = node.orelse[0]
-        else:
-            r = node.orelse[0] if node.orelse else None
-            if isinstance(r, ast.Return) and isinstance(r.value, ast.Call):
-                table[None] = (unparse(r.value.func), call_args(r.value))
-            break
-    want = {"periodic": "self.d3_periodic", "symmetric": "self.d3_symmetric",
-            None: "self.d3_onesided"}
-    for lab, fnname in want.items():
+    P = tuple(("param", x) for x in params)
+    node = v
+    while node[0] == "cond":
+        t = node[1]
+        lab = "?"
+        if t[0] == "cmp" and t[1] == "Eq" and ("attr", "self.boundary") in (t[2], t[3]):
+            other = t[3] if t[2] == ("attr", "self.boundary") else t[2]
+            if other[0] == "const":
+                lab = other[1]
+        table[lab] = node[2]
+        node = node[3]
+    table[None] = node
+    want = {"periodic": "d3_periodic", "symmetric": "d3_symmetric", None: "d3_onesided"}
+    for lab, name in want.items():
         got = table.get(lab)
-        rep.check(got is not None and got[0] == fnname and got[1] == params[1:],
-                  "boundary-dispatch", f"{FD}::d3::{lab}",
-                  f"boundary mode {lab!r} must call {fnname}(f, idx, N); got {got}", node=fn)
+        rep.check(got == ("mcall", name, P), "boundary-dispatch", f"{FD}::d3::{lab}",
+                  f"boundary mode {lab!r} must call self.{name}(f, idx, N); got {got}", node=fn)
+    extra = set(table) - set(want)
+    rep.check(not extra, "boundary-dispatch", f"{FD}::d3::other-branches",
+              f"d3 has branches beyond the boundary dispatch: {sorted(map(str, extra))}",
+              node=fn)
 
 
 # ---------------------------------------------------------------------------------------------
 # axes, permutations and tensor maps
 # ---------------------------------------------------------------------------------------------
-AXIS = {"x": 0, "y": 1, "z": 2}
-
-
-def tuple_const(node):
-    if isinstance(node, (ast.Tuple, ast.List)):
-        vals = [const_value(e) for e in node.elts]
-        if all(v is not None and v.denominator == 1 for v in vals):
-            return tuple(int(v) for v in vals)
+def perm_of(v):
+    if v is not None and v[0] == "tuple" and all(isinstance(x, Aff) and x.is_const()
+                                                  for x in v[1]):
+        return tuple(int(x.c) for x in v[1])
     return None
 
 
@@ -616,110 +448,106 @@ def check_axes(rep):
                                                   for t in st.targets):
                 found = True
                 v = st.value
+                right = unparse(v.right) if isinstance(v, ast.BinOp) else ""
+                if isinstance(v, ast.BinOp) and isinstance(v.right, ast.Name):
+                    # alias of the parameter table entry
+                    for a2 in ast.walk(init):
+                        if isinstance(a2, ast.Assign) and unparse(a2.targets[0]) == right:
+                            right = unparse(a2.value)
                 ok = (isinstance(v, ast.BinOp) and isinstance(v.op, ast.Div)
                       and const_value(v.left) == 1
-                      and unparse(v.right) in (f"self.param['d{ax}']", f"self.d{ax}"))
+                      and right in (f"self.param['d{ax}']", f"self.d{ax}"))
                 rep.check(ok, "axis-spacing", f"{FD}::__init__::inverse_d{ax}",
                           f"inverse_d{ax} must be 1/d{ax}, got {unparse(v)}", node=st)
         rep.require(found, f"inverse_d{ax} assignment not found")
     for ax in "xyz":
-        fn = S.function(FD, f"FiniteDifference.d3{ax}")
-        calls = find_calls(fn, "self.d3")
-        rep.require(len(calls) == 1, f"d3{ax}: expected one call of self.d3")
-        c = calls[0]
-        a = call_args(c)
+        fn, v = interp(rep, f"FiniteDifference.d3{ax}")
+        F = ("param", fn.args.args[1].arg)
         key = f"{FD}::d3{ax}"
-        rep.check(a[1] == f"self.inverse_d{ax}" and a[2] == f"self.param['N{ax}']",
+        outer_perm = None
+        core = v
+        if core[0] == "T":
+            outer_perm = perm_of(core[2])
+            core = core[1]
+        rep.require(core[0] == "mcall" and core[1] == "d3" and len(core[2]) == 3,
+                    f"d3{ax}: the result is not self.d3(...) (possibly transposed)")
+        arr, idx, n = core[2]
+        rep.check(idx == ("attr", f"self.inverse_d{ax}")
+                  and n in (("attr", f"self.param['N{ax}']"), ("attr", f"self.N{ax}")),
                   "axis-params", key,
-                  f"d3{ax} must use the spacing and size of the {ax} axis, got {a[1:]}", node=c)
-        trans = find_calls(fn, "np.transpose")
+                  f"d3{ax} must use the spacing and size of the {ax} axis, got {idx}, {n}",
+                  node=fn)
+        inner_perm = None
+        if arr[0] == "T":
+            inner_perm = perm_of(arr[2])
+            arr = arr[1]
         if AXIS[ax] == 0:
-            rep.check(not trans and a[0] == fn.args.args[1].arg, "axis-permutation", key,
-                      "d3x must differentiate the array as given", node=fn)
+            rep.check(outer_perm is None and inner_perm is None and arr == F,
+                      "axis-permutation", key, "d3x must differentiate the array as given",
+                      node=fn)
             continue
-        perms = [tuple_const(t.args[1]) if len(t.args) > 1 else None for t in trans]
-        ok = len(trans) == 2 and all(p is not None and sorted(p) == [0, 1, 2] for p in perms)
+        perms = [inner_perm, outer_perm]
+        ok = all(p is not None and sorted(p) == [0, 1, 2] for p in perms)
         if ok:
             fwd, back = perms
-            # which transpose feeds self.d3 ?  the one assigned before the call
-            ok = (fwd[0] == AXIS[ax]
-                  and tuple(fwd[back[i]] for i in range(3)) == (0, 1, 2))
+            ok = fwd[0] == AXIS[ax] and tuple(fwd[back[i]] for i in range(3)) == (0, 1, 2)
         rep.check(ok, "axis-permutation", key,
                   f"transpositions {perms}: the first must bring axis {AXIS[ax]} to the front "
                   "and the second must be its inverse", node=fn, detail={"perms": str(perms)})
-        # data flow: transposed input -> self.d3 -> transposed back -> return
-        la = local_assigns(fn)
-        arg0 = c.args[0]
-        src_ok = isinstance(arg0, ast.Name) and isinstance(la.get(arg0.id), ast.Call) \
-            and unparse(la[arg0.id].func) == "np.transpose"
-        ret = [s for s in fn.body if isinstance(s, ast.Return)][0].value
-        ret_ok = isinstance(ret, ast.Call) and unparse(ret.func) == "np.transpose" \
-            and isinstance(ret.args[0], ast.Name) and la.get(ret.args[0].id) is c
-        rep.check(src_ok and ret_ok, "axis-flow", key,
+        rep.check(arr == F, "axis-flow", key,
                   "d3 must be applied to the transposed input and its result transposed back",
                   node=fn)
     # tensor maps
     for n in (1, 2, 3):
-        fn = S.function(FD, f"map{n}")
+        fn, v = interp(rep, f"map{n}")
         params = [a.arg for a in fn.args.args]
-        la = local_assigns(fn)
-        ret = [s for s in fn.body if isinstance(s, ast.Return)][0].value
-        lc = ret.args[0] if isinstance(ret, ast.Call) and ret.args else ret
-        loopvars, bounds = [], []
-        while isinstance(lc, ast.ListComp):
-            g = lc.generators[0]
-            loopvars.append(unparse(g.target))
-            b = g.iter.args[0] if isinstance(g.iter, ast.Call) and g.iter.args else None
-            if isinstance(b, ast.Name) and b.id in la:
-                b = la[b.id]
-            bounds.append(unparse(b) if b is not None else None)
-            lc = lc.elt
-        ok = isinstance(lc, ast.Call) and unparse(lc.func) == params[0] and len(lc.args) == 1
-        idx = None
-        if ok:
-            sub = lc.args[0]
-            if isinstance(sub, ast.Subscript) and unparse(sub.value) == params[1]:
-                idx = [unparse(e) for e in sub.slice.elts] if isinstance(sub.slice, ast.Tuple) \
-                    else [unparse(sub.slice)]
-        want_bounds = [f"np.shape({params[1]})[{i}]" for i in range(n)]
-        rep.check(ok and idx == loopvars and len(loopvars) == n and bounds == want_bounds,
-                  "tensor-map", f"{FD}::map{n}",
-                  f"map{n} must rebuild the nest in index order: loop vars {loopvars}, "
-                  f"subscript {idx}, bounds {bounds}", node=fn)
+        Fn, Ar = ("param", params[0]), ("param", params[1])
+        def strip_arr(t):
+            if isinstance(t, tuple) and t and t[0] == "arr":
+                return strip_arr(t[1])
+            if isinstance(t, tuple):
+                return tuple(strip_arr(x) for x in t)
+            return t
+        got = canon_lists(strip_arr(v))
+        want = ("call", Fn, (("idx", Ar, tuple(("sym", f"i{k}") for k in range(n))),))
+        for k in reversed(range(n)):
+            want = ("list", f"i{k}", ("range", Aff(0), ("shape", Ar, k)), want)
+        rep.check(v[0] == "arr" and got == want, "tensor-map", f"{FD}::map{n}",
+                  f"map{n} must rebuild the nest in index order: "
+                  f"np.array([[func(f[i, j, ..]) ..] for i in range(np.shape(f)[0])]); got "
+                  f"{got!r}"[:400], node=fn)
     # d3_scalar, rank-N gradient builders
     meth = S.functions(FD)
-    fn = S.function(FD, "FiniteDifference.d3_scalar")
-    ret = [s for s in fn.body if isinstance(s, ast.Return)][0].value
-    arg = fn.args.args[1].arg
-    want = [f"self.d3{ax}({arg})" for ax in "xyz"]
-    got = [unparse(e) for e in ret.args[0].elts] if isinstance(ret, ast.Call) and ret.args \
-        and isinstance(ret.args[0], (ast.List, ast.Tuple)) else None
-    rep.check(got == want, "gradient-order", f"{FD}::d3_scalar",
-              f"gradient components must be stacked (x, y, z): got {got}", node=fn)
+    fn, v = interp(rep, "FiniteDifference.d3_scalar")
+    F = ("param", fn.args.args[1].arg)
+    want = ("arr", ("tuple", tuple(("mcall", f"d3{ax}", (F,)) for ax in "xyz")))
+    rep.check(v == want, "gradient-order", f"{FD}::d3_scalar",
+              f"gradient components must be stacked (x, y, z): got {v!r}"[:300], node=fn)
     for n in (1, 2, 3):
+        per_axis = {}
         for ax in "xyz":
-            fn = S.function(FD, f"FiniteDifference.d3{ax}_rank{n}tensor")
-            arg = fn.args.args[1].arg
-            ret = [s for s in fn.body if isinstance(s, ast.Return)][0].value
-            rep.check(unparse(ret) == f"map{n}(self.d3{ax}, {arg})", "tensor-axis",
-                      f"{FD}::d3{ax}_rank{n}tensor",
-                      f"must be map{n}(self.d3{ax}, f), got {unparse(ret)}", node=fn)
-        fn = S.function(FD, f"FiniteDifference.d3_rank{n}tensor")
-        arg = fn.args.args[1].arg
-        ret = [s for s in fn.body if isinstance(s, ast.Return)][0].value
+            fn, v = interp(rep, f"FiniteDifference.d3{ax}_rank{n}tensor")
+            F = ("param", fn.args.args[1].arg)
+            want = ("call", ("global", f"map{n}"), (("attr", f"self.d3{ax}"), F))
+            per_axis[ax] = want
+            rep.check(v == want, "tensor-axis", f"{FD}::d3{ax}_rank{n}tensor",
+                      f"must be map{n}(self.d3{ax}, f), got {v!r}"[:300], node=fn)
+        fn, v = interp(rep, f"FiniteDifference.d3_rank{n}tensor")
+        F = ("param", fn.args.args[1].arg)
+
+        def norm(e):
+            # the per-axis method and its definition are the same thing
+            for ax in "xyz":
+                if e == ("mcall", f"d3{ax}_rank{n}tensor", (F,)):
+                    return per_axis[ax]
+            return e
         got = None
-        axis_ok = True
-        if isinstance(ret, ast.Call) and ret.args and isinstance(ret.args[0],
-                                                                 (ast.List, ast.Tuple)):
-            got = [unparse(e) for e in ret.args[0].elts]
-            if unparse(ret.func) == "np.stack":
-                axis_ok = all(const_value(k.value) == 0 for k in ret.keywords
-                              if k.arg == "axis")
-        alt1 = [f"self.d3{ax}_rank{n}tensor({arg})" for ax in "xyz"]
-        alt2 = [f"map{n}(self.d3{ax}, {arg})" for ax in "xyz"]
-        rep.check(got in (alt1, alt2) and axis_ok, "gradient-order",
+        if v[0] == "arr" and v[1][0] == "tuple":
+            got = tuple(norm(e) for e in v[1][1])
+        rep.check(got == tuple(per_axis[ax] for ax in "xyz"), "gradient-order",
                   f"{FD}::d3_rank{n}tensor",
-                  f"derivative axis must be first, in (x, y, z) order: got {got}", node=fn)
+                  f"derivative axis must be first, in (x, y, z) order: got {v!r}"[:300],
+                  node=fn)
     return meth
 
 
@@ -731,28 +559,20 @@ STRAIGHT = ["fd_map", "map1", "map2", "map3", "FiniteDifference.d3x", "FiniteDif
 
 
 def check_straight_line(rep):
-    """The operators above must be straight-line code: no data- or mode-dependent shortcut
-    may bypass the stencil application that the other rules verify (a branch returning early
-    would make the verified path one of several)."""
+    """The operators above must be branch-free: no data- or mode-dependent shortcut may bypass
+    the stencil application that the other rules verify (a branch returning early would make
+    the verified path one of several).  Accumulation loops are the only control flow."""
     S = rep.sources
     for qual in STRAIGHT:
         fn = S.function(FD, qual)
         bad = []
-        nret = 0
-        for st in fn.body:
-            if isinstance(st, ast.Expr) and isinstance(st.value, ast.Constant):
-                continue
-            if isinstance(st, ast.Assign) and all(isinstance(t, ast.Name) for t in st.targets):
-                continue
-            if isinstance(st, ast.Return):
-                nret += 1
-                continue
-            bad.append(type(st).__name__ + ": " + norm_src(st)[:50])
         for node in ast.walk(fn):
-            if isinstance(node, ast.IfExp):
-                bad.append("conditional expression: " + norm_src(node)[:50])
+            if isinstance(node, (ast.If, ast.IfExp, ast.While, ast.Try, ast.Match,
+                                 ast.BoolOp)):
+                bad.append(type(node).__name__ + ": " + norm_src(node)[:50])
+        nret = sum(isinstance(n, ast.Return) for n in ast.walk(fn))
         rep.check(not bad and nret == 1, "straight-line", f"{FD}::{qual}",
-                  "operator is not straight-line code (single return, no branches): "
+                  "operator is not branch-free code (single return, no branches): "
                   + "; ".join(bad), node=fn)
 
 
@@ -770,9 +590,9 @@ def run(rep):
     rep.assume("round-off of the float weights (e.g. 25/12) is not part of the claim")
     stencils = check_stencils(rep)
     check_dispatch(rep, stencils)
+    check_straight_line(rep)
     check_splices(rep, stencils)
     check_axes(rep)
-    check_straight_line(rep)
     rep.floor("stencil-moment", 72)
     rep.floor("straight-line", 20)
     rep.floor("dispatch-table", 12)
